@@ -18,9 +18,44 @@
 #include <cstdint>
 #include <cstring>
 #include <iostream>
+#include <iterator>
+#include <memory>
 #include <sstream>
 #include <string>
 #include <vector>
+
+// a user type with its own codec: an enum over a 32-bit integer that travels as ONE byte (tag `B`).  Its wire format is not its
+// object representation, so any path that copies objects instead of going through the codec shows
+namespace vr { enum class WireByte : std::uint32_t {}; }
+namespace mserialize {
+template <>
+struct CustomSerializer<vr::WireByte>
+{
+  template <typename OutputStream>
+  static void serialize(const vr::WireByte v, OutputStream& ostream)
+  {
+    const std::uint8_t b = std::uint8_t(static_cast<std::uint32_t>(v));
+    mserialize::serialize(b, ostream);
+  }
+  static std::size_t serialized_size(const vr::WireByte) { return 1; }
+};
+template <>
+struct CustomDeserializer<vr::WireByte>
+{
+  template <typename InputStream>
+  static void deserialize(vr::WireByte& v, InputStream& istream)
+  {
+    std::uint8_t b = 0;
+    mserialize::deserialize(b, istream);
+    v = static_cast<vr::WireByte>(std::uint32_t(b));
+  }
+};
+template <>
+struct CustomTag<vr::WireByte>
+{
+  static constexpr auto tag_string() { return make_cx_string("B"); }
+};
+} // namespace mserialize
 
 namespace vr {
 
@@ -244,6 +279,35 @@ struct Again<D, 0>
 {
   static void run(const std::string&, const std::string&) {}
 };
+
+// A single-pass range (begin()/end() are std::istream_iterator<int> over a stream the range owns): mserialize rejects it at
+// compile time (sequences need forward iterators, the serializer walks them more than once).  If a tree ACCEPTS it, size and
+// bytes are reported (on stderr, once per program) and the check holds them against the documented encoding.
+struct InputRange
+{
+  std::shared_ptr<std::istringstream> in;
+  explicit InputRange(const std::string& text) :in(std::make_shared<std::istringstream>(text)) {}
+  std::istream_iterator<int> begin() const { return std::istream_iterator<int>(*in); }
+  std::istream_iterator<int> end() const { return std::istream_iterator<int>(); }
+};
+template <typename R, typename = void>
+struct InputProbe
+{
+  static void run() { std::cerr << "PROBE input-range=rejected\n"; }
+};
+template <typename R>
+struct InputProbe<R, std::enable_if_t<mserialize::detail::is_serializable<R>::value>>
+{
+  static void run()
+  {
+    const R a("1 2 3");
+    const std::size_t size = mserialize::serialized_size(a);
+    const R b("1 2 3");
+    const std::string bytes = serialize_to_string(b);
+    std::cerr << "PROBE input-range=accepted size=" << size << " bytes=" << hex(bytes) << "\n";
+  }
+};
+inline void probe_input_range() { InputProbe<InputRange>::run(); }
 
 // Report the serialization side of one value.  `X` is a tag-compatible deserializable type
 // (or `void` if there is none); `D` says whether T itself is deserializable.
